@@ -66,6 +66,10 @@ def lit_forms_int(x):
         forms.append(("0x%X" % x, exp))
         forms.append(("0x000%x" % x, exp))
         forms.append(("000%d" % x, exp))
+        forms.append(("0x%017x" % x, exp))
+        forms.append(("0x%040X" % x, exp))
+        forms.append(("%020d" % x, exp))
+        forms.append(("%040d" % x, exp))
     else:
         forms.append(("-0x%x" % -x, exp))
         forms.append(("- %d" % -x, exp))
@@ -75,7 +79,9 @@ def lit_forms_int(x):
 def lit_forms_uint(x):
     inr = 0 <= x <= U64_MAX
     exp = ('ok', U(x)) if inr else ('reject',)
-    return [(str(x) + "u", exp), (str(x) + "U", exp), ("0x%xu" % x, exp), ("0x%XU" % x, exp), ("00%du" % x, exp)]
+    return [(str(x) + "u", exp), (str(x) + "U", exp), ("0x%xu" % x, exp), ("0x%XU" % x, exp), ("00%du" % x, exp),
+            ("0x%017xu" % x, exp), ("0x%040XU" % x, exp), ("%021du" % x, exp), ("%040dU" % x, exp)] if x >= 0 else \
+        [(str(x) + "u", exp), (str(x) + "U", exp)]
 
 
 def lit_forms_double(f):
@@ -91,6 +97,10 @@ def lit_forms_double(f):
                 forms.append((('-' if f < 0 or str(f).startswith('-') else '') + s[1:], ('ok', D(f))))   # leading dot
     forms.append(("%.17e" % f, ('ok', D(f))))
     forms.append((("%.17E" % f), ('ok', D(f))))
+    e17 = "%.17e" % f
+    mant, ex = e17.split('e')
+    sign = '-' if mant.startswith('-') else ''
+    forms.append((sign + '000' + mant.lstrip('-') + '0' * 25 + 'e' + ex[0] + '000' + ex[1:], ('ok', D(f))))   # padded everywhere
     return forms
 
 
@@ -231,9 +241,16 @@ def run_unit(unit, drv, res, seed, tier):
         for f in DBL_B:
             cases.append(exec_case(len(cases), "double(string(a))", [("a", D(f))]))
             meta.append(D(f))
-        for s in ["", "abc", "é𝄞", "a\u0000b", "\U0010ffff ", "'\"\\"]:
+        for s in ["", "abc", "é𝄞", "a\u0000b", "\U0010ffff ", "'\"\\", "\ufeffabc", "\ufeff", "a\ufeffb", "\ufffe", "\ufffd", "\u2028x", "a\r\nb",
+                  " abc ", "\tabc\n", "+1", "0x10", "é" * 100, "\x00", "\x7f\x80", "\u00ff\u0100", "𝄞" * 9, "\r", "\n", "\\n", "%s", "{}"]:
             cases.append(exec_case(len(cases), "string(bytes(a))", [("a", S(s))]))
             meta.append(S(s))
+            cases.append(exec_case(len(cases), "bytes(a).string()", [("a", S(s))]))
+            meta.append(S(s))
+            cases.append(exec_case(len(cases), "bytes(string(a))", [("a", ('y', s.encode('utf-8')))]))
+            meta.append(('y', s.encode('utf-8')))
+            cases.append(exec_case(len(cases), "string(a) + 'x' == a + 'x' && string(a).size() == a.size()", [("a", S(s))]))
+            meta.append(('b', True))
         out = drv.run(cases, 'roundtrip')
         for c, r, v in zip(cases, out, meta):
             res.evaluations += 1
